@@ -312,6 +312,7 @@ func (fx *Fx) builtin(st *State, name string, call *ast.CallExpr) []Val {
 				st.assume(phi)
 			}
 			r := st.allocRef()
+			st.assume(c.refTypeFact(r, t))
 			st.setHeap("CC", "(Array Int Bool)", fmt.Sprintf("(store %s %s false)", st.heap("CC", "(Array Int Bool)"), r))
 			st.setHeap("CP", "(Array Int Int)", fmt.Sprintf("(store %s %s %s)", st.heap("CP", "(Array Int Int)"), r, cp.T))
 			return []Val{{T: r, S: "Int", GT: t}}
@@ -401,6 +402,7 @@ func (fx *Fx) builtinAppend(st *State, call *ast.CallExpr) Val {
 	sl := types.Unalias(t).Underlying().(*types.Slice)
 	s = fx.convertTo(st, s, t)
 	s.T = c.define("aps", "Slice", s.T)
+	fx.wfSlice(st, s.T)
 	es := c.sortOf(sl.Elem())
 	key := "E:" + typeKey(sl.Elem())
 	hs := "(Array Int (Array Int " + es + "))"
@@ -491,10 +493,12 @@ func (fx *Fx) callFuncValue(st *State, call *ast.CallExpr, preArgs []Val) []Val 
 	st.assume(fmt.Sprintf("(not (= %s 0))", fv.T))
 	c.declareFun("fn_code", []string{"Int"}, "Int")
 	st.logEvent(evTerm("Call", "(fn_code "+fv.T+")", a0, a1, ""))
-	// effects: those of any literal with the same signature
+	// effects: those of any literal with the same signature; events: opaque
 	ms := newModSet()
 	fx.w.callMods(fx.pkg, c, call, ms, nil)
+	ms.emits = false
 	fx.havocMods(st, ms)
+	st.havocLogOpaque()
 	// contract attached to the func-typed parameter / variable?  (spec: "fnparam <name>")
 	var out []Val
 	if sig != nil {
@@ -543,6 +547,9 @@ func (fx *Fx) freshOfType(st *State, prefix string, t types.Type) Val {
 	n := c.freshConst(prefix, s)
 	if ra := c.rangeAssume(n, t); ra != "" {
 		st.assume(ra)
+	}
+	if rf := c.refTypeFact(n, t); rf != "" {
+		st.assume(rf)
 	}
 	return Val{T: n, S: s, GT: t}
 }
@@ -613,6 +620,35 @@ func (fx *Fx) specFor(fn *types.Func) (*FuncSpec, string) {
 	return nil, key
 }
 
+// pureIfaceMethod: a method of an interface without contract all of whose implementations in the loaded
+// packages are covered by a pure glob (e.g. the generated getters of package schema).
+func (fx *Fx) pureIfaceMethod(fn *types.Func) bool {
+	sig := fn.Type().(*types.Signature)
+	r := sig.Recv()
+	if r == nil {
+		return false
+	}
+	it, ok := types.Unalias(r.Type()).Underlying().(*types.Interface)
+	if !ok {
+		return false
+	}
+	n := 0
+	for _, fi := range fx.w.Funcs {
+		if fi.Obj == nil || fi.Obj.Name() != fn.Name() {
+			continue
+		}
+		rs := fi.Obj.Type().(*types.Signature).Recv()
+		if rs == nil || !types.Implements(rs.Type(), it) {
+			continue
+		}
+		if !fx.pureGlob(fi.Key) {
+			return false
+		}
+		n++
+	}
+	return n > 0
+}
+
 func (fx *Fx) pureGlob(key string) bool {
 	for _, g := range fx.w.PureGlobs {
 		pat := strings.TrimSuffix(g, "*")
@@ -669,6 +705,39 @@ func (fx *Fx) applyCall(st *State, fn *types.Func, recv *Val, args []Val, call *
 	pre := st.clone()
 	// frame
 	ms := fx.w.modsOfFunc(key, c, nil)
+	if sp.Flags["lockeffect"] != "" {
+		st.havocHeap("LK") // the callee changes lock state; its ensures say how
+	}
+	// object-granular frames: heaps named as x.f change only at the object x
+	type objFrame struct{ key, old string }
+	var objFrames []objFrame
+	for k, objs := range sp.ModObjs {
+		if len(objs) == 0 {
+			continue
+		}
+		if srt, known := c.heapSorts()[k]; known {
+			objFrames = append(objFrames, objFrame{k, st.heap(k, srt)})
+		}
+	}
+	defer func() {
+		// (installed below, after the havoc)
+	}()
+	applyObjFrames := func() {
+		for _, of := range objFrames {
+			srt := c.heapSorts()[of.key]
+			nw := st.heap(of.key, srt)
+			if nw == of.old {
+				continue
+			}
+			var ne []string
+			for _, on := range sp.ModObjs[of.key] {
+				if v, ok := bound[on]; ok {
+					ne = append(ne, fmt.Sprintf("(not (= r!o %s))", v.T))
+				}
+			}
+			st.assume(fmt.Sprintf("(forall ((r!o Int)) (! (=> (and %s true) (= (select %s r!o) (select %s r!o))) :pattern ((select %s r!o))))", strings.Join(ne, " "), nw, of.old, nw))
+		}
+	}
 	if len(sp.EmitsC) > 0 || sp.Flags["emits"] == "none" {
 		// explicit event list
 		m2 := *ms
@@ -679,9 +748,15 @@ func (fx *Fx) applyCall(st *State, fn *types.Func, recv *Val, args []Val, call *
 			ev := fx.specEval(env, ec.Expr)
 			st.logEvent(ev.T)
 		}
+	} else if sp.Flags["emits"] == "opaque" {
+		m2 := *ms
+		m2.emits = false
+		fx.havocMods(st, &m2)
+		st.havocLogOpaque()
 	} else {
 		fx.havocMods(st, ms)
 	}
+	applyObjFrames()
 	// results
 	var out []Val
 	pure := sp.Flags["pure"] != ""
@@ -742,7 +817,8 @@ func (fx *Fx) defaultCall(st *State, fn *types.Func, key string, recv *Val, args
 	c := fx.c
 	sig := fn.Type().(*types.Signature)
 	var out []Val
-	if fx.pureGlob(key) {
+	if fx.pureGlob(key) || fx.pureIfaceMethod(fn) {
+		key = "m|" + fn.Name() + "|" + key
 		for i := 0; i < sig.Results().Len(); i++ {
 			out = append(out, fx.pureApp(st, key, i, recv, args, sig.Results().At(i).Type()))
 		}
